@@ -38,7 +38,7 @@ PROBES = ['healthy_big_dat', 'healthy_lis_gt100_prs', 'healthy_RP66V1', 'healthy
           'foreign_detected', 'lis_probe_on_non_lis', 'dat_probe_on_ascii', 'budget_gt_half', 'from_path', 'random_bytes', 'damaged_still_identified',
           'damaged_unidentified', 'exception_class_seen']
 EXPECTED = {'dlis': 'RP66V1', 'dlis_phys': 'RP66V1', 'bit': 'BIT', 'dat': 'DAT'}
-FAMILIES = ['dlis', 'dlis_phys', 'lis', 'lis', 'las', 'bit', 'dat', 'random']
+FAMILIES = ['dlis', 'dlis_phys', 'lis', 'lis', 'las', 'bit', 'dat', 'random', 'foreign']
 
 bft = None
 
@@ -84,12 +84,36 @@ def generate(seed, tier):
         gen['frames'] = rng.pick([40, 120])
     if fam == 'dat' and rng.chance(0.3):
         gen['big'] = True                # declarations + header + first row of several kB
+    if fam == 'foreign':
+        # files of other kinds found in log directories (SEG-Y, PDF, ZIP, XML, ...): no expected code, but every probe that
+        # recognises them must survive their damaged versions too
+        from worlds import foreign
+        gen['kind'] = rng.pick(foreign.KINDS + ['segy', 'segy'])
+        gen['size'] = rng.randrange(0, 3000)
     if fam == 'random':
         gen['size'] = rng.wpick([(1, 0), (2, rng.randrange(1, 13)), (3, rng.randrange(12, 400)), (2, rng.randrange(400, 4097))])
     by, fields, info = base_bytes(gen)
     n = len(by)
     fault_sets = [[]]
+    text_fields = []
+    if fam in ('las', 'dat') and n:
+        import re
+        if fam == 'las':
+            for m in re.finditer(rb'VERS\s*\.\s+([\d.]+)|(~V\S*)|WRAP\s*\.\s+(\S+)', by[:600]):
+                g = next(i for i in (1, 2, 3) if m.group(i) is not None)
+                text_fields.append((m.start(g), m.end(g) - m.start(g), 'las.token'))
+        else:
+            hdr = re.search(rb'^UTIM\s+DATE\s+TIME.*$', by, re.M)
+            if hdr:
+                text_fields.append((hdr.start(), min(16, hdr.end() - hdr.start()), 'dat.header'))
+                row = re.match(rb'\n(\S+)\s+(\S+)\s+(\S+)', by[hdr.end():])
+                if row:
+                    for i in (1, 2, 3):
+                        text_fields.append((hdr.end() + row.start(i), row.end(i) - row.start(i), 'dat.token'))
+        fields = list(fields) + text_fields
     if fam != 'random' and n:
+        if fam == 'foreign' and not fields:
+            fields = [(k, 3, 'card') for k in range(0, min(n, 3200), 80)] if gen['kind'] == 'segy' else [(0, 8, 'magic')]
         # --- enumerated: truncation at structural boundaries and +-1
         cuts = set()
         for pos, ln, _ in fields:
@@ -116,6 +140,17 @@ def generate(seed, tier):
                 flips.add((pos + k, rng.randrange(8)))
         for p, b in sorted(flips)[:90]:
             fault_sets.append([['bitflip', p, b]])
+        # --- enumerated for text formats: one character of a key token replaced by another legal-looking character
+        subs = []
+        for pos, ln, _ in text_fields:
+            for k in range(min(ln, 12)):
+                for ch in b'.:~# -09A\t':
+                    if by[pos + k] != ch:
+                        subs.append(['overwrite', pos + k, bytes([ch]).hex()])
+        if len(subs) > 70:
+            subs = rng.sample(subs, 70)
+        for f in subs:
+            fault_sets.append([f])
         # --- seeded other kinds, sometimes two at once
         for _ in range(24):
             fs = [damage.gen_fault(rng, n, fields, kinds=['zero_block', 'overwrite', 'dup_block', 'swap_blocks', 'append', 'empty', 'foreign', 'header_damage'])]
